@@ -280,7 +280,19 @@ def build_graph(rng, root):
         elif k.file_dir == 'lib':
             feats.add('package_in_subdir')
         files[rel] = text
-        if k.base.startswith('pkg') and rng.random() < 0.35:
+        if k.base.startswith('pkg') and k.file_dir == '' and rng.random() < 0.3:
+            # two files match the name: the entry that comes first in the load path decides
+            decoy = b'decoy_%s=true\nfunction _draw() end\n' % k.base.encode()
+            if lua_path_mode == 'default':
+                # ?;?.lua - a file called exactly like the package comes before the one with the extension
+                files[k.base] = text
+                files[rel] = decoy
+                k.decoy = True
+                feats.add('two_files_match_first_entry_wins')
+            elif lua_path_mode == 'arg_rel':
+                files[os.path.join('libs', k.base + '.lua')] = decoy
+                feats.add('two_files_match_first_entry_wins')
+        if k.base.startswith('pkg') and rng.random() < 0.35 and k.base not in files:
             # a sub-package directory that has the package's name sits next to the package file
             files[os.path.join(os.path.dirname(rel), k.base, 'part.lua')] = b'part=1\n'
             feats.add('directory_named_like_package')
@@ -302,7 +314,7 @@ def build_graph(rng, root):
     if lua_path_mode == 'default' and rng.random() < 0.35:
         # one file under a second require name (the default load path ?;?.lua finds pkgN.lua as "pkgN" and as "pkgN.lua"), asked
         # for with the other use_game_loop choice: two names, two packages, each stripped or not as its own require says
-        cands = [j for j in sorted(reach) if pkgs[j].file_dir == '' and pkgs[j].base.startswith('pkg')]
+        cands = [j for j in sorted(reach) if pkgs[j].file_dir == '' and pkgs[j].base.startswith('pkg') and not getattr(pkgs[j], 'decoy', False)]
         if cands:
             j = rng.choice(cands)
             alias = Pkg()
@@ -624,7 +636,7 @@ def gates(m, tier):
               'require_form:stmt', 'require_form:assign', 'require_form:local', 'require_form:field', 'require_form:callarg',
               'require_form:chain', 'require_form:nestedfn', 'require_form:in_if', 'require_form:in_else', 'require_form:in_shortif',
               'require_form:in_loop', 'require_form:in_cond', 'error:missing', 'error:noargs', 'error:threeargs', 'error:nonstring',
-              'error:badoption', 'gameloop_with_comment_before_or_code_after', 'gameloop_name_as_last_component', 'dotted_gameloop_name', 'package_name_non_ascii', 'directory_named_like_package', 'found_via_pattern_with_placeholder_in_directory',
+              'error:badoption', 'gameloop_with_comment_before_or_code_after', 'gameloop_name_as_last_component', 'dotted_gameloop_name', 'package_name_non_ascii', 'directory_named_like_package', 'two_files_match_first_entry_wins', 'found_via_pattern_with_placeholder_in_directory',
               'package_without_remaining_code:empty_file', 'package_without_remaining_code:comments_only', 'package_without_remaining_code:game_loop_only', 'one_file_two_names_opposite_options', 'main_starts_with_comment'):
         if f.get(k, 0) < 2:
             missed.append('%s seen %d times' % (k, f.get(k, 0)))
